@@ -157,7 +157,7 @@ def check(run, replay=None):
             # tolerances assigned through the setters after the method was chosen (an embedded pair re-reads them every step; a
             # Richardson wrapper copies them when it is built)
             for m in ("RK45CK", {"rich": "RK4", "levels": 3}) + (({"rich": "RK45CK", "levels": 2}, "RadauIIA5") if thorough else ()):
-                if c["problem"] in ("rat", "pair") and c["k"] in (8, -4) and not (m == "RadauIIA5" and c["problem"] == "pair"):    # (finding f30)
+                if c["problem"] in ("rat", "pair") and c["k"] in (8, -4):
                     jobs.append((c, m, 1e-8, 0.25, True))
             if not thorough:
                 # a first attempt of half the span overflows in the stages of the 35-stage pair: the retries must recover (finding f25)
